@@ -150,6 +150,15 @@ fn lib_decode_msg(full: &[u8], wire_order: Option<&[u8]>) -> String {
         let _ = wire_order;
         let fields = fields_of(&dh, None);
         let msg = unmarshal::unmarshal_next_message(&hdr, dh, full.to_vec(), used, vec![]).map_err(|_| ())?;
+        // what the caller receives is the MESSAGE: its type, flags, serial and fields must be the header's
+        let fields2 = fields_of(&msg.dynheader, None);
+        let same = format!("{:?}", msg.typ) == format!("{:?}", hdr.typ)
+            && msg.flags == hdr.flags
+            && msg.dynheader.serial.map(|x| x.get()) == Some(hdr.serial.get())
+            && format!("{:?}", fields2) == format!("{:?}", fields);
+        if !same {
+            return Ok(format!("ok {} body={} BUT-THE-MESSAGE-SAYS typ={:?} flags={} serial={:?} fields={:?}", show_decoded(&hdr, &fields), hex(msg.get_buf()), msg.typ, msg.flags, msg.dynheader.serial, fields2));
+        }
         Ok::<_, ()>(format!("ok {} body={}", show_decoded(&hdr, &fields), hex(msg.get_buf())))
     });
     match r {
